@@ -29,6 +29,9 @@ type AddressAllocator interface {
 	ReleaseIPv6(ctx context.Context, ip net.IP) error
 }
 
+// releaseTimeout bounds the address releases of one session termination.
+const releaseTimeout = 30 * time.Second
+
 // EventHandler is called when session events occur.
 type EventHandler func(event *SessionEvent)
 
@@ -501,6 +504,14 @@ func (m *Manager) TerminateSession(ctx context.Context, sessionID string, reason
 	m.mu.Unlock()
 
 	verifPoint("subscriber.terminate.between-check-and-remove")
+	// From here on the session is removed whatever happens, so its addresses
+	// must be given back even if the caller's context ends meanwhile (a
+	// Disconnect-Request that is being handled when the daemon shuts down, a
+	// shutdown path that has already cancelled its own context): the releases
+	// keep the caller's values but not its cancellation, and get their own bound.
+	ctx, cancelRelease := context.WithTimeout(context.WithoutCancel(ctx), releaseTimeout)
+	defer cancelRelease()
+
 	// Release IP addresses
 	if session.IPv4 != nil && m.allocator != nil {
 		if err := m.allocator.ReleaseIPv4(ctx, session.IPv4); err != nil {
